@@ -32,7 +32,7 @@ CONSTANTS
 
 VARIABLES
   req, reqClosed, resp, respClosed,
-  svrDone, svrExit,
+  svrDone, svrExit, sprop,
   sst, shdr, strl, smu,
   cst, clast, chdr, ctrl, respMu,
   reqMu, sendClosed,
@@ -41,7 +41,7 @@ VARIABLES
   panicked, lviol,
   ev           \* the API event the last step emitted (NoEv for internal steps); binds traces, hidden by a VIEW otherwise
 
-lvars == <<req, reqClosed, resp, respClosed, svrDone, svrExit, sst, shdr, strl, smu,
+lvars == <<req, reqClosed, resp, respClosed, svrDone, svrExit, sprop, sst, shdr, strl, smu,
            cst, clast, chdr, ctrl, respMu, reqMu, sendClosed, pc, tmp, probe, got, fst,
            bud, ncancel, nhdr, ntrl, panicked, lviol>>
 allvars == <<vars, lvars, ev>>
@@ -85,12 +85,15 @@ KindC == IF ReqStreamC /\ RespStreamC THEN "bidi"
          ELSE IF RespStreamC THEN "sstream" ELSE "unary"
 
 CDone == cctx # "live"              \* the client's context
-SDone == cctx # "live" \/ svrExit   \* the server stream's context
+\* The server stream's context hangs off the caller's through noValuesContext,
+\* a foreign context type, so the context package propagates a cancellation
+\* to it from a goroutine: the server side sees it a little later (sprop).
+SDone == sprop \/ svrExit
 
 LInit ==
   /\ InitH(KindC, "inproc", <<>>, "running")
   /\ req = <<>> /\ reqClosed = FALSE /\ resp = <<>> /\ respClosed = FALSE
-  /\ svrDone = FALSE /\ svrExit = FALSE
+  /\ svrDone = FALSE /\ svrExit = FALSE /\ sprop = FALSE
   /\ sst = "H" /\ shdr = <<>> /\ strl = <<>> /\ smu = ""
   /\ cst = "H" /\ clast = NoFrame /\ chdr = <<>> /\ ctrl = <<>> /\ respMu = ""
   /\ reqMu = "" /\ sendClosed = FALSE
@@ -118,7 +121,7 @@ StartSend ==
   /\ Goto("cs", "s1")
   /\ Ev_CSendCall(cSendStarted + 1)
   /\ NoViol /\ Emit("CSendCall", cSendStarted + 1, RNil, 0, <<>>)
-  /\ UNCHANGED <<req, reqClosed, resp, respClosed, svrDone, svrExit, sst, shdr, strl, smu,
+  /\ UNCHANGED <<req, reqClosed, resp, respClosed, svrDone, svrExit, sprop, sst, shdr, strl, smu,
                  cst, clast, chdr, ctrl, respMu, reqMu, sendClosed, tmp, probe, got, fst,
                  ncancel, nhdr, ntrl, panicked>>
 
@@ -131,7 +134,7 @@ SendLock ==
             /\ Viol(Chk_CSendRet(cSendStarted, RMisuse)) /\ Emit("CSendRet", cSendStarted, RMisuse, 0, <<>>)
        ELSE /\ Goto("cs", "s2") /\ reqMu' = "cs"
             /\ UNCHANGED vars /\ NoViol /\ Quiet
-  /\ UNCHANGED <<req, reqClosed, resp, respClosed, svrDone, svrExit, sst, shdr, strl, smu,
+  /\ UNCHANGED <<req, reqClosed, resp, respClosed, svrDone, svrExit, sprop, sst, shdr, strl, smu,
                  cst, clast, chdr, ctrl, respMu, sendClosed, tmp, probe, got, fst,
                  bud, ncancel, nhdr, ntrl, panicked>>
 
@@ -146,12 +149,13 @@ SendSelect ==
      \/ /\ CDone                                \* case <-ctx.Done()
         /\ Goto("cs", "s3")
         /\ UNCHANGED <<req, panicked, reqMu, vars>> /\ NoViol /\ Quiet
-     \/ /\ svrDone                              \* case <-remote: return io.EOF
+     \/ /\ (svrDone \/ SDone)                   \* case <-remote: return io.EOF (svrDoneCtx is a
+                                                \* child of the server stream's context)
         /\ Goto("cs", "idle") /\ reqMu' = ""
         /\ Ev_CSendRet(cSendStarted, REof)
         /\ Viol(Chk_CSendRet(cSendStarted, REof)) /\ Emit("CSendRet", cSendStarted, REof, 0, <<>>)
         /\ UNCHANGED <<req, panicked>>
-  /\ UNCHANGED <<reqClosed, resp, respClosed, svrDone, svrExit, sst, shdr, strl, smu,
+  /\ UNCHANGED <<reqClosed, resp, respClosed, svrDone, svrExit, sprop, sst, shdr, strl, smu,
                  cst, clast, chdr, ctrl, respMu, sendClosed, tmp, probe, got, fst,
                  bud, ncancel, nhdr, ntrl>>
 
@@ -162,7 +166,7 @@ SendRet ==
   /\ LET r == IF CDone THEN RCtx(TRUE) ELSE RNil IN
        /\ Ev_CSendRet(cSendStarted, r)
        /\ Viol(Chk_CSendRet(cSendStarted, r)) /\ Emit("CSendRet", cSendStarted, r, 0, <<>>)
-  /\ UNCHANGED <<req, reqClosed, resp, respClosed, svrDone, svrExit, sst, shdr, strl, smu,
+  /\ UNCHANGED <<req, reqClosed, resp, respClosed, svrDone, svrExit, sprop, sst, shdr, strl, smu,
                  cst, clast, chdr, ctrl, respMu, sendClosed, tmp, probe, got, fst,
                  bud, ncancel, nhdr, ntrl, panicked>>
 
@@ -172,7 +176,7 @@ StartClose(t) ==
   /\ bud' = [bud EXCEPT ![t] = @ - 1]
   /\ Goto(t, "c1")
   /\ Ev_CCloseSendCall /\ NoViol /\ Emit("CCloseSendCall", 0, RNil, 0, <<>>)
-  /\ UNCHANGED <<req, reqClosed, resp, respClosed, svrDone, svrExit, sst, shdr, strl, smu,
+  /\ UNCHANGED <<req, reqClosed, resp, respClosed, svrDone, svrExit, sprop, sst, shdr, strl, smu,
                  cst, clast, chdr, ctrl, respMu, reqMu, sendClosed, tmp, probe, got, fst,
                  ncancel, nhdr, ntrl, panicked>>
 
@@ -183,7 +187,7 @@ CloseDo(t) ==
      ELSE /\ reqClosed' = TRUE /\ sendClosed' = TRUE
           /\ panicked' = (panicked \/ reqClosed)
   /\ UNCHANGED vars /\ NoViol /\ Emit("CCloseSendRet", 0, RNil, 0, <<>>)
-  /\ UNCHANGED <<req, resp, respClosed, svrDone, svrExit, sst, shdr, strl, smu,
+  /\ UNCHANGED <<req, resp, respClosed, svrDone, svrExit, sprop, sst, shdr, strl, smu,
                  cst, clast, chdr, ctrl, respMu, reqMu, tmp, probe, got, fst,
                  bud, ncancel, nhdr, ntrl>>
 
@@ -197,7 +201,7 @@ StartHRecv ==
   /\ bud' = [bud EXCEPT !["h"] = @ - 1]
   /\ Goto("h", "hr1")
   /\ Ev_HRecvCall /\ NoViol /\ Emit("HRecvCall", 0, RNil, 0, <<>>)
-  /\ UNCHANGED <<req, reqClosed, resp, respClosed, svrDone, svrExit, sst, shdr, strl, smu,
+  /\ UNCHANGED <<req, reqClosed, resp, respClosed, svrDone, svrExit, sprop, sst, shdr, strl, smu,
                  cst, clast, chdr, ctrl, respMu, reqMu, sendClosed, tmp, probe, got, fst,
                  ncancel, nhdr, ntrl, panicked>>
 
@@ -213,7 +217,7 @@ HRecvSelect ==
      \/ /\ SDone
         /\ Goto("h", "idle") /\ UNCHANGED <<req, tmp>>
         /\ Ev_HRecvRet(RCtx(TRUE), 0) /\ Viol(Chk_HRecvRet(RCtx(TRUE), 0)) /\ Emit("HRecvRet", 0, RCtx(TRUE), 0, <<>>)
-  /\ UNCHANGED <<reqClosed, resp, respClosed, svrDone, svrExit, sst, shdr, strl, smu,
+  /\ UNCHANGED <<reqClosed, resp, respClosed, svrDone, svrExit, sprop, sst, shdr, strl, smu,
                  cst, clast, chdr, ctrl, respMu, reqMu, sendClosed, probe, got, fst,
                  bud, ncancel, nhdr, ntrl, panicked>>
 
@@ -226,7 +230,7 @@ HRecvCheck ==
          r == IF SDone THEN RCtx(TRUE) ELSE IF f.t = "X" THEN REof ELSE RNil
          m == IF r.k = "nil" THEN f.v ELSE 0 IN
        /\ Ev_HRecvRet(r, m) /\ Viol(Chk_HRecvRet(r, m)) /\ Emit("HRecvRet", 0, r, m, <<>>)
-  /\ UNCHANGED <<req, reqClosed, resp, respClosed, svrDone, svrExit, sst, shdr, strl, smu,
+  /\ UNCHANGED <<req, reqClosed, resp, respClosed, svrDone, svrExit, sprop, sst, shdr, strl, smu,
                  cst, clast, chdr, ctrl, respMu, reqMu, sendClosed, probe, got, fst,
                  bud, ncancel, nhdr, ntrl, panicked>>
 
@@ -236,7 +240,7 @@ StartHSend ==
   /\ bud' = [bud EXCEPT !["h"] = @ - 1]
   /\ Goto("h", "hs1")
   /\ Ev_HSendCall(hSendStarted + 1) /\ NoViol /\ Emit("HSendCall", hSendStarted + 1, RNil, 0, <<>>)
-  /\ UNCHANGED <<req, reqClosed, resp, respClosed, svrDone, svrExit, sst, shdr, strl, smu,
+  /\ UNCHANGED <<req, reqClosed, resp, respClosed, svrDone, svrExit, sprop, sst, shdr, strl, smu,
                  cst, clast, chdr, ctrl, respMu, reqMu, sendClosed, tmp, probe, got, fst,
                  ncancel, nhdr, ntrl, panicked>>
 
@@ -250,7 +254,7 @@ HSendLock ==
             /\ IF sst = "H" /\ shdr # <<>> THEN Goto("h", "hs3") /\ UNCHANGED sst
                ELSE Goto("h", "hs5") /\ sst' = "M"
             /\ UNCHANGED vars /\ NoViol /\ Quiet
-  /\ UNCHANGED <<req, reqClosed, resp, respClosed, svrDone, svrExit, shdr, strl,
+  /\ UNCHANGED <<req, reqClosed, resp, respClosed, svrDone, svrExit, sprop, shdr, strl,
                  cst, clast, chdr, ctrl, respMu, reqMu, sendClosed, tmp, probe, got, fst,
                  bud, ncancel, nhdr, ntrl, panicked>>
 
@@ -263,7 +267,7 @@ HdrSelect(t, from, to) ==
      \/ /\ SDone /\ UNCHANGED <<resp, panicked>>
   /\ Goto(t, to)
   /\ UNCHANGED vars /\ NoViol /\ Quiet
-  /\ UNCHANGED <<req, reqClosed, respClosed, svrDone, svrExit, sst, shdr, strl, smu,
+  /\ UNCHANGED <<req, reqClosed, respClosed, svrDone, svrExit, sprop, sst, shdr, strl, smu,
                  cst, clast, chdr, ctrl, respMu, reqMu, sendClosed, tmp, probe, got, fst,
                  bud, ncancel, nhdr, ntrl>>
 
@@ -277,7 +281,7 @@ HSendHdrRet ==
             /\ Ev_HSendRet(hSendStarted, RCtx(TRUE)) /\ Viol(Chk_HSendRet(hSendStarted, RCtx(TRUE))) /\ Emit("HSendRet", hSendStarted, RCtx(TRUE), 0, <<>>)
        ELSE /\ Goto("h", "hs5") /\ shdr' = <<>> /\ sst' = "M" /\ UNCHANGED smu
             /\ UNCHANGED vars /\ NoViol /\ Quiet
-  /\ UNCHANGED <<req, reqClosed, resp, respClosed, svrDone, svrExit, strl,
+  /\ UNCHANGED <<req, reqClosed, resp, respClosed, svrDone, svrExit, sprop, strl,
                  cst, clast, chdr, ctrl, respMu, reqMu, sendClosed, tmp, probe, got, fst,
                  bud, ncancel, nhdr, ntrl, panicked>>
 
@@ -289,7 +293,7 @@ HSendDataSelect ==
      \/ /\ SDone /\ UNCHANGED <<resp, panicked>>
   /\ Goto("h", "hs6")
   /\ UNCHANGED vars /\ NoViol /\ Quiet
-  /\ UNCHANGED <<req, reqClosed, respClosed, svrDone, svrExit, sst, shdr, strl, smu,
+  /\ UNCHANGED <<req, reqClosed, respClosed, svrDone, svrExit, sprop, sst, shdr, strl, smu,
                  cst, clast, chdr, ctrl, respMu, reqMu, sendClosed, tmp, probe, got, fst,
                  bud, ncancel, nhdr, ntrl>>
 
@@ -298,7 +302,7 @@ HSendRet ==
   /\ Goto("h", "idle") /\ smu' = ""
   /\ LET r == IF SDone THEN RCtx(TRUE) ELSE RNil IN
        Ev_HSendRet(hSendStarted, r) /\ Viol(Chk_HSendRet(hSendStarted, r)) /\ Emit("HSendRet", hSendStarted, r, 0, <<>>)
-  /\ UNCHANGED <<req, reqClosed, resp, respClosed, svrDone, svrExit, sst, shdr, strl,
+  /\ UNCHANGED <<req, reqClosed, resp, respClosed, svrDone, svrExit, sprop, sst, shdr, strl,
                  cst, clast, chdr, ctrl, respMu, reqMu, sendClosed, tmp, probe, got, fst,
                  bud, ncancel, nhdr, ntrl, panicked>>
 
@@ -308,7 +312,7 @@ StartSetHeader ==
   /\ bud' = [bud EXCEPT !["h"] = @ - 1] /\ nhdr' = nhdr + 1
   /\ Goto("h", "sh1")
   /\ Ev_HSetHeaderCall(nhdr + 1) /\ NoViol /\ Emit("HSetHeaderCall", nhdr + 1, RNil, 0, <<>>)
-  /\ UNCHANGED <<req, reqClosed, resp, respClosed, svrDone, svrExit, sst, shdr, strl, smu,
+  /\ UNCHANGED <<req, reqClosed, resp, respClosed, svrDone, svrExit, sprop, sst, shdr, strl, smu,
                  cst, clast, chdr, ctrl, respMu, reqMu, sendClosed, tmp, probe, got, fst,
                  ncancel, ntrl, panicked>>
 
@@ -318,7 +322,7 @@ SetHeaderDo ==
   /\ LET ok == sst = "H" IN
        /\ shdr' = IF ok THEN Append(shdr, nhdr) ELSE shdr
        /\ Ev_HSetHeaderRet(nhdr, ok) /\ Viol(Chk_HSetHeaderRet(nhdr, ok)) /\ Emit("HSetHeaderRet", nhdr, IF ok THEN RNil ELSE RMisuse, 0, <<>>)
-  /\ UNCHANGED <<req, reqClosed, resp, respClosed, svrDone, svrExit, sst, strl, smu,
+  /\ UNCHANGED <<req, reqClosed, resp, respClosed, svrDone, svrExit, sprop, sst, strl, smu,
                  cst, clast, chdr, ctrl, respMu, reqMu, sendClosed, tmp, probe, got, fst,
                  bud, ncancel, nhdr, ntrl, panicked>>
 
@@ -327,7 +331,7 @@ StartSendHeader ==
   /\ bud' = [bud EXCEPT !["h"] = @ - 1] /\ nhdr' = nhdr + 1
   /\ Goto("h", "dh1")
   /\ Ev_HSendHeaderCall(nhdr + 1) /\ NoViol /\ Emit("HSendHeaderCall", nhdr + 1, RNil, 0, <<>>)
-  /\ UNCHANGED <<req, reqClosed, resp, respClosed, svrDone, svrExit, sst, shdr, strl, smu,
+  /\ UNCHANGED <<req, reqClosed, resp, respClosed, svrDone, svrExit, sprop, sst, shdr, strl, smu,
                  cst, clast, chdr, ctrl, respMu, reqMu, sendClosed, tmp, probe, got, fst,
                  ncancel, ntrl, panicked>>
 
@@ -338,7 +342,7 @@ SendHeaderLock ==
             /\ Ev_HSendHeaderRet(nhdr, FALSE) /\ Viol(Chk_HSendHeaderRet(nhdr, FALSE)) /\ Emit("HSendHeaderRet", nhdr, RMisuse, 0, <<>>)
        ELSE /\ Goto("h", "dh2") /\ smu' = "h" /\ shdr' = Append(shdr, nhdr)
             /\ UNCHANGED vars /\ NoViol /\ Quiet
-  /\ UNCHANGED <<req, reqClosed, resp, respClosed, svrDone, svrExit, sst, strl,
+  /\ UNCHANGED <<req, reqClosed, resp, respClosed, svrDone, svrExit, sprop, sst, strl,
                  cst, clast, chdr, ctrl, respMu, reqMu, sendClosed, tmp, probe, got, fst,
                  bud, ncancel, nhdr, ntrl, panicked>>
 
@@ -351,7 +355,7 @@ SendHeaderRet ==
        /\ shdr' = IF ok THEN <<>> ELSE shdr
        /\ sst' = IF ok THEN "M" ELSE sst
        /\ Ev_HSendHeaderRet(nhdr, ok) /\ Viol(Chk_HSendHeaderRet(nhdr, ok)) /\ Emit("HSendHeaderRet", nhdr, IF ok THEN RNil ELSE RMisuse, 0, <<>>)
-  /\ UNCHANGED <<req, reqClosed, resp, respClosed, svrDone, svrExit, strl,
+  /\ UNCHANGED <<req, reqClosed, resp, respClosed, svrDone, svrExit, sprop, strl,
                  cst, clast, chdr, ctrl, respMu, reqMu, sendClosed, tmp, probe, got, fst,
                  bud, ncancel, nhdr, ntrl, panicked>>
 
@@ -361,7 +365,7 @@ SetTrailerDo ==
   /\ LET ok == sst # "C" IN
        /\ strl' = IF ok THEN Append(strl, ntrl + 1) ELSE strl
        /\ Ev_HSetTrailerRet(ntrl + 1, ok) /\ Viol(Chk_HSetTrailerRet(ntrl + 1, ok)) /\ Emit("HSetTrailerRet", ntrl + 1, IF ok THEN RNil ELSE RMisuse, 0, <<>>)
-  /\ UNCHANGED <<req, reqClosed, resp, respClosed, svrDone, svrExit, sst, shdr, smu,
+  /\ UNCHANGED <<req, reqClosed, resp, respClosed, svrDone, svrExit, sprop, sst, shdr, smu,
                  cst, clast, chdr, ctrl, respMu, reqMu, sendClosed, pc, tmp, probe, got, fst,
                  ncancel, nhdr, panicked>>
 
@@ -372,7 +376,7 @@ HReturnDo(s) ==
   /\ tmp' = [tmp EXCEPT !["h"] = E(s)]
   /\ svrDone' = TRUE                          \* s.onDone()
   /\ Ev_HReturn(StRec(s), 0) /\ NoViol /\ Emit("HReturn", s, RNil, 0, <<>>)
-  /\ UNCHANGED <<req, reqClosed, resp, respClosed, svrExit, sst, shdr, strl, smu,
+  /\ UNCHANGED <<req, reqClosed, resp, respClosed, svrExit, sprop, sst, shdr, strl, smu,
                  cst, clast, chdr, ctrl, respMu, reqMu, sendClosed, probe, got, fst,
                  bud, ncancel, nhdr, ntrl, panicked>>
 
@@ -382,7 +386,7 @@ FinLock ==
   /\ Goto("h", IF sst = "H" /\ shdr # <<>> THEN "f2" ELSE IF strl # <<>> THEN "f3"
                ELSE IF tmp["h"].v # 0 THEN "f4" ELSE "f5")
   /\ UNCHANGED vars /\ NoViol /\ Quiet
-  /\ UNCHANGED <<req, reqClosed, resp, respClosed, svrDone, svrExit, sst, shdr, strl,
+  /\ UNCHANGED <<req, reqClosed, resp, respClosed, svrDone, svrExit, sprop, sst, shdr, strl,
                  cst, clast, chdr, ctrl, respMu, reqMu, sendClosed, tmp, probe, got, fst,
                  bud, ncancel, nhdr, ntrl, panicked>>
 
@@ -395,7 +399,7 @@ FinWrite(from, f, to) ==
      \/ /\ SDone /\ UNCHANGED <<resp, panicked>>
   /\ Goto("h", to)
   /\ UNCHANGED vars /\ NoViol /\ Quiet
-  /\ UNCHANGED <<req, reqClosed, respClosed, svrDone, svrExit, sst, shdr, strl, smu,
+  /\ UNCHANGED <<req, reqClosed, respClosed, svrDone, svrExit, sprop, sst, shdr, strl, smu,
                  cst, clast, chdr, ctrl, respMu, reqMu, sendClosed, tmp, probe, got, fst,
                  bud, ncancel, nhdr, ntrl>>
 
@@ -411,7 +415,7 @@ FinClose ==
   /\ smu' = "" /\ svrExit' = TRUE
   /\ tmp' = [tmp EXCEPT !["h"] = NoFrame]
   /\ UNCHANGED vars /\ NoViol /\ Quiet
-  /\ UNCHANGED <<req, reqClosed, resp, svrDone, shdr, strl,
+  /\ UNCHANGED <<req, reqClosed, resp, svrDone, sprop, shdr, strl,
                  cst, clast, chdr, ctrl, respMu, reqMu, sendClosed, probe, got, fst,
                  bud, ncancel, nhdr, ntrl>>
 
@@ -423,7 +427,7 @@ StartHeader ==
   /\ bud' = [bud EXCEPT !["cr"] = @ - 1]
   /\ Goto("cr", "ch1")
   /\ Ev_CHeaderCall /\ NoViol /\ Emit("CHeaderCall", 0, RNil, 0, <<>>)
-  /\ UNCHANGED <<req, reqClosed, resp, respClosed, svrDone, svrExit, sst, shdr, strl, smu,
+  /\ UNCHANGED <<req, reqClosed, resp, respClosed, svrDone, svrExit, sprop, sst, shdr, strl, smu,
                  cst, clast, chdr, ctrl, respMu, reqMu, sendClosed, tmp, probe, got, fst,
                  ncancel, nhdr, ntrl, panicked>>
 
@@ -433,7 +437,7 @@ HeaderLock ==
        THEN /\ Goto("cr", "idle") /\ UNCHANGED respMu
             /\ UNCHANGED vars /\ Viol(Chk_CHeaderRet(RNil, chdr)) /\ Emit("CHeaderRet", 0, RNil, 0, chdr)
        ELSE /\ Goto("cr", "ch2") /\ respMu' = "cr" /\ UNCHANGED vars /\ NoViol /\ Quiet
-  /\ UNCHANGED <<req, reqClosed, resp, respClosed, svrDone, svrExit, sst, shdr, strl, smu,
+  /\ UNCHANGED <<req, reqClosed, resp, respClosed, svrDone, svrExit, sprop, sst, shdr, strl, smu,
                  cst, clast, chdr, ctrl, reqMu, sendClosed, tmp, probe, got, fst,
                  bud, ncancel, nhdr, ntrl, panicked>>
 
@@ -453,7 +457,7 @@ RespSelect(from, to, onctx) ==
 HeaderSelect ==
   /\ RespSelect("ch2", "ch3", "ch3")
   /\ UNCHANGED vars /\ NoViol /\ Quiet
-  /\ UNCHANGED <<req, reqClosed, respClosed, svrDone, svrExit, sst, shdr, strl, smu,
+  /\ UNCHANGED <<req, reqClosed, respClosed, svrDone, svrExit, sprop, sst, shdr, strl, smu,
                  cst, clast, chdr, ctrl, respMu, reqMu, sendClosed, probe, got, fst,
                  bud, ncancel, nhdr, ntrl, panicked>>
 
@@ -471,7 +475,7 @@ HeaderCheck ==
             /\ clast' = IF f.t \in {"E", "D"} THEN f ELSE clast
             /\ UNCHANGED vars
             /\ Viol(Chk_CHeaderRet(RNil, IF f.t = "H" THEN f.w ELSE chdr)) /\ Emit("CHeaderRet", 0, RNil, 0, IF f.t = "H" THEN f.w ELSE chdr)
-  /\ UNCHANGED <<req, reqClosed, resp, respClosed, svrDone, svrExit, sst, shdr, strl, smu,
+  /\ UNCHANGED <<req, reqClosed, resp, respClosed, svrDone, svrExit, sprop, sst, shdr, strl, smu,
                  reqMu, sendClosed, probe, got, fst,
                  bud, ncancel, nhdr, ntrl, panicked>>
 
@@ -480,7 +484,7 @@ TrailerDo ==
   /\ pc["cr"] = "idle" /\ bud["cr"] > 0 /\ respMu = ""
   /\ bud' = [bud EXCEPT !["cr"] = @ - 1]
   /\ UNCHANGED vars /\ Viol(Chk_CTrailerRet(ctrl)) /\ Emit("CTrailerRet", 0, RNil, 0, ctrl)
-  /\ UNCHANGED <<req, reqClosed, resp, respClosed, svrDone, svrExit, sst, shdr, strl, smu,
+  /\ UNCHANGED <<req, reqClosed, resp, respClosed, svrDone, svrExit, sprop, sst, shdr, strl, smu,
                  cst, clast, chdr, ctrl, respMu, reqMu, sendClosed, pc, tmp, probe, got, fst,
                  ncancel, nhdr, ntrl, panicked>>
 
@@ -490,7 +494,7 @@ StartRecv ==
   /\ bud' = [bud EXCEPT !["cr"] = @ - 1]
   /\ Goto("cr", "r1")
   /\ Ev_CRecvCall /\ NoViol /\ Emit("CRecvCall", 0, RNil, 0, <<>>)
-  /\ UNCHANGED <<req, reqClosed, resp, respClosed, svrDone, svrExit, sst, shdr, strl, smu,
+  /\ UNCHANGED <<req, reqClosed, resp, respClosed, svrDone, svrExit, sprop, sst, shdr, strl, smu,
                  cst, clast, chdr, ctrl, respMu, reqMu, sendClosed, tmp, probe, got, fst,
                  ncancel, nhdr, ntrl, panicked>>
 
@@ -499,7 +503,7 @@ RecvLock ==
   /\ respMu' = "cr" /\ probe' = FALSE /\ got' = 0
   /\ Goto("cr", "r2")
   /\ UNCHANGED vars /\ NoViol /\ Quiet
-  /\ UNCHANGED <<req, reqClosed, resp, respClosed, svrDone, svrExit, sst, shdr, strl, smu,
+  /\ UNCHANGED <<req, reqClosed, resp, respClosed, svrDone, svrExit, sprop, sst, shdr, strl, smu,
                  cst, clast, chdr, ctrl, reqMu, sendClosed, tmp, fst,
                  bud, ncancel, nhdr, ntrl, panicked>>
 
@@ -535,7 +539,7 @@ RecvPeeked ==
        THEN Delivered(clast.v)
        ELSE /\ cst' = "C" /\ UNCHANGED <<clast, probe, got>>
             /\ Failed(IF clast.v = 99 THEN RLib ELSE RSt(clast.v))
-  /\ UNCHANGED <<req, reqClosed, resp, respClosed, svrDone, svrExit, sst, shdr, strl, smu,
+  /\ UNCHANGED <<req, reqClosed, resp, respClosed, svrDone, svrExit, sprop, sst, shdr, strl, smu,
                  chdr, ctrl, reqMu, sendClosed, tmp, fst,
                  bud, ncancel, nhdr, ntrl, panicked>>
 
@@ -543,7 +547,7 @@ RecvSelect ==
   /\ pc["cr"] \in {"r2", "r3"} /\ clast.t = "N"
   /\ RespSelect(pc["cr"], "r4", "r4")
   /\ UNCHANGED vars /\ NoViol /\ Quiet
-  /\ UNCHANGED <<req, reqClosed, respClosed, svrDone, svrExit, sst, shdr, strl, smu,
+  /\ UNCHANGED <<req, reqClosed, respClosed, svrDone, svrExit, sprop, sst, shdr, strl, smu,
                  cst, clast, chdr, ctrl, respMu, reqMu, sendClosed, probe, got, fst,
                  bud, ncancel, nhdr, ntrl, panicked>>
 
@@ -565,7 +569,7 @@ RecvCheck ==
           /\ cst' = "C" /\ clast' = f /\ UNCHANGED <<chdr, ctrl, probe, got>>
           /\ Failed(RSt(f.v))
      ELSE /\ Delivered(f.v) /\ UNCHANGED <<chdr, ctrl>>
-  /\ UNCHANGED <<req, reqClosed, resp, respClosed, svrDone, svrExit, sst, shdr, strl, smu,
+  /\ UNCHANGED <<req, reqClosed, resp, respClosed, svrDone, svrExit, sprop, sst, shdr, strl, smu,
                  reqMu, sendClosed, fst,
                  bud, ncancel, nhdr, ntrl, panicked>>
 
@@ -574,9 +578,18 @@ Cancel(why) ==
   /\ cctx = "live" /\ ncancel < MaxCancel
   /\ ncancel' = ncancel + 1
   /\ Ev_Cancel(why) /\ NoViol /\ Emit("Cancel", IF why = "cancel" THEN 1 ELSE 4, RNil, 0, <<>>)
-  /\ UNCHANGED <<req, reqClosed, resp, respClosed, svrDone, svrExit, sst, shdr, strl, smu,
+  /\ UNCHANGED <<req, reqClosed, resp, respClosed, svrDone, svrExit, sprop, sst, shdr, strl, smu,
                  cst, clast, chdr, ctrl, respMu, reqMu, sendClosed, pc, tmp, probe, got, fst,
                  bud, nhdr, ntrl, panicked>>
+
+\* the cancellation of the caller's context reaches the server side
+Propagate ==
+  /\ CDone /\ ~sprop
+  /\ sprop' = TRUE
+  /\ UNCHANGED vars /\ NoViol /\ Quiet
+  /\ UNCHANGED <<req, reqClosed, resp, respClosed, svrDone, svrExit, sst, shdr, strl, smu,
+                 cst, clast, chdr, ctrl, respMu, reqMu, sendClosed, pc, tmp, probe, got, fst,
+                 bud, ncancel, nhdr, ntrl, panicked>>
 
 \* every thread is at rest and the handler has returned: the run is over
 Terminated ==
@@ -597,6 +610,7 @@ Next ==
   \/ TrailerDo
   \/ StartRecv \/ RecvLock \/ RecvPeeked \/ RecvSelect \/ RecvCheck
   \/ \E w \in CancelKinds : Cancel(w)
+  \/ Propagate
   \/ Terminated
 
 Spec == Init /\ [][Next]_allvars
@@ -613,6 +627,7 @@ Fair ==
   /\ WF_allvars(FinLock \/ FinH \/ FinT \/ FinE \/ FinClose)
   /\ WF_allvars(HeaderLock \/ HeaderSelect \/ HeaderCheck)
   /\ WF_allvars(RecvLock \/ RecvPeeked \/ RecvSelect \/ RecvCheck)
+  /\ WF_allvars(Propagate)
 
 FairSpec == Spec /\ Fair
 
@@ -642,7 +657,7 @@ HandlerParked ==
   \/ (pc["h"] \in {"hs3", "hs5", "dh2", "f2", "f3", "f4"} /\ ~(Len(resp) < Cap) /\ ~SDone)
 C05_NoStuck ==
   /\ (pc["h"] = "done" \/ CDone) => ~ClientParked
-  /\ CDone => ~HandlerParked
+  /\ sprop => ~HandlerParked
 
 \* C05, liveness form
 AllIdle == \A t \in {"cs", "cs2", "cr"} : pc[t] = "idle"
